@@ -14,6 +14,8 @@ Obligations
                            failed; an invalid command line gives return code 1 before any step is called.
   repeated_steps_each_called  a step named k times in the chain is called k times (own id: chain_order_and_retcode
                            stays checkable on such chains; FAILS on the pinned tree, Params.objects() drops duplicates).
+  reusing_step_failure_reported  the same return code clause for collect/create/clean, which reuse get/set/unset (own id;
+                           FAILS on the pinned tree: _reuse_tool_with_param_dict drops the reused tool's return code).
   once_per_vm_and_worker   per state step (check/get/set/unset/push/pop/collect/create/clean), on every worker every
                            selected vm that is compatible with that worker (oracle table transcribed from
                            tp_folder/configs/nets.cfg) is covered by exactly one test run and nothing else is run
@@ -225,7 +227,9 @@ def run_case(inp):
     if any(c["selected"] != selected for c in calls):
         fail("chain_order_and_retcode", "selection_not_passed_to_step", [c["selected"] for c in calls], selected)
     want_rc = 1 if any(failing) else 0
-    if rc != want_rc:
+    if rc != want_rc and want_rc and all(s in ACTION for s, f in zip(inp["steps"], failing) if f):
+        fail("reusing_step_failure_reported", "collect_create_clean_failure_not_reported", rc, want_rc)
+    elif rc != want_rc:
         fail("chain_order_and_retcode", "retcode_0_despite_failing_step" if want_rc else "retcode_1_without_failing_step",
              rc, want_rc)
     if got_calls != [(s, "0m%d" % i) for i, s in enumerate(steps)]:
@@ -316,7 +320,8 @@ def chain_cases(tier):
     mixed = [(["check"], []), (["get"], ["get"]), (["fk_raise_rt", "check"], []), (["fk_one", "get", "fk_zero"], []),
              (["get", "check"], ["get"]), (["get", "fk_none"], ["get"]), (["check", "get", "fk_zero"], ["get"]),
              (["unset", "unset"], ["unset"]), (["create", "check"], []), (["clean", "unset", "collect", "get"], []),
-             (["boot", "fk_raise_val", "shutdown"], ["boot"]), (["noop", "pop", "push"], ["push"])]
+             (["boot", "fk_raise_val", "shutdown"], ["boot"]), (["noop", "pop", "push"], ["push"]),
+             (["create"], ["set"]), (["clean", "fk_none"], ["unset"]), (["fk_zero", "collect"], ["get"])]
     if tier != "quick":
         real = ["check", "get", "set", "unset", "push", "pop", "collect", "create", "clean", "boot", "shutdown"]
         mixed += [([a, b], f) for a in real for b in real for f in ([], [ACTION.get(a, a)])]
@@ -403,6 +408,7 @@ def main():
                 counts["no_unexpected_exception"] += 1
                 counts["chain_order_and_retcode"] += 1
                 counts["repeated_steps_each_called"] += len(set(inp["steps"])) < len(inp["steps"])
+                counts["reusing_step_failure_reported"] += any(ACTION.get(s) in (inp.get("fail_actions") or []) for s in real)
                 counts["once_per_vm_and_worker"] += bool(set(real) & set(PER_VM_STEPS))
                 counts["multi_vm_once_per_vm_and_worker"] += bool(set(real) & set(MULTI_VM_STEPS))
                 if nontrivial(inp):
